@@ -36,7 +36,7 @@ CHECKS = {
    text="TLC checks the C04 clauses on the emission model for every record-size vector (and refutes the count-splice variant), then evaluates them on every response produced by the real serialise_with_size for messages whose unlimited encoding lands at limit-1/limit/limit+1 and far beyond, as parsed by an independent walker.",
    note="function level decides well-formedness/limit/TC/prefix for the encoder; which limit the UDP and TCP listeners pass is covered by the end-to-end rig part"),
  "C06": dict(level="model_checking", design="4/C06", technique="TLA+ DnsCache: exhaustive MC (TLC) of insert/lookup/tick/sweep interleavings + TLC trace validation (DnsCacheTrace) of the cache's own code under tokio's paused clock + TLC trace validation (CacheE2ETrace) of the real DnsService in real time with short TTLs",
-   text="P06 (hit only for the same key within the smallest TTL, TTL = original - whole seconds elapsed, miss after expiry) holds on every transition of MC_DnsCache (two keys, TTL vectors with different minima incl. 0, half-second steps, sweeps; unbounded time) and is evaluated on every lookup of hundreds of scenarios driven through the real insert/lookup/expire code with exact virtual time, including TTLs 2^16, 2^31, 2^32-1 and near-miss keys built as wire queries.",
+   text="P06 (hit only for the same key within the smallest TTL, TTL = original - whole seconds elapsed, miss after expiry) holds on every transition of MC_DnsCache (two keys, TTL vectors with different minima incl. 0, half-second steps, sweeps; unbounded time) and is evaluated on every lookup of hundreds of scenarios driven through the real insert/lookup/expire code with exact virtual time, including TTLs 2^16, 2^31, 2^32-1, upstream replies of every response code and near-miss keys built as wire queries; and on the replies of the real DnsService to names asked again and again in real time (same key, upper case, CD, DO, other type) while their 1..4 s TTLs run out.",
    note="the function-level hook repeats three lines of CacheHandler::handle_query (key construction, insert, lookup); those lines themselves are bound by the service-level part (same and near-miss keys in waves, ages bounded by the event times); name equality read case-insensitively"),
  "C14": dict(level="model_checking", design="4/C14", technique="TLA+ DnsWire (compression-pointer discipline) + TLC trace validation (DnsWireTrace) of DNSPkt::serialise walked by an independent walker and re-decoded by the crate's parser",
    text="For structured messages up to 2000 records / 64 KiB (all name-bearing rdata types, shared suffixes at every depth, suffixes first written around offset 16384) and for mutated byte strings the decoder accepts: TLC checks every compression pointer (backwards, < 16384, to a label start) and the equality of the abstract messages (walker projection of the bytes vs the message built by the harness; crate decoder's result vs original).",
